@@ -46,8 +46,14 @@ impl Projector {
                 }
             }
             Node::Quote() => {
-                if let Some(child) = iter.child() {
-                    blocks.push(GraphBlock::BlockQuote(self.with(0).project_node(child)));
+                // a quote that holds nothing (its only content was a dropped HTML block) is not
+                // written: an empty quote would come out as blank lines
+                let quoted = iter
+                    .child()
+                    .map(|child| self.with(0).project_node(child))
+                    .unwrap_or_default();
+                if !quoted.is_empty() {
+                    blocks.push(GraphBlock::BlockQuote(quoted));
                 }
             }
             Node::BulletList() => {
